@@ -36,6 +36,23 @@ earlier calls) -/
 theorem cell_fragments_functional (len : List Char → Nat) (s : Span) (c : Cell) (ch : Char) :
     ∃ fs, cellFragments len s c ch = fs := ⟨_, rfl⟩
 
+/-- the contact groups of a scope when the hash map hands out its cells in the order `perm` -/
+def contactsOfVisiting (len : List Char → Nat) (s perm : Span) : List (List FragSpan) :=
+  let frags := absFragmentSpans (fragmentBuffer len s perm)
+  let merged := G.mergeRec (FragSpan.merge len) (frags.length + 1) frags
+  let groups := merged.map fun f => [f]
+  G.mergeRec (contactsMerge len) (groups.length + 1) groups
+
+/-- **the merged fragments and the contact groups of a scope do not depend on the visiting order**:
+whatever order the hash map iterates in (any permutation of the scope's cells), fragment merge and
+contact grouping see the same ordered fragment list and give the same groups in the same order — the
+model's `contactsOf` (which visits the cells in their own order) is that common value -/
+theorem contact_groups_order_independent (len : List Char → Nat) (s perm : Span)
+    (hp : perm.Perm s) (hkey : ∀ x ∈ perm, ∀ y ∈ perm, x.1 = y.1 → x = y) :
+    contactsOfVisiting len s perm = contactsOf len s := by
+  unfold contactsOfVisiting contactsOf
+  rw [fragmentBuffer_order_independent len s perm s hp hkey]
+
 /-- the order in which the fragments of one cell are kept (and hence emitted) breaks ties between
 kinds by `Fragment::rank`; the model's ranks are the source's, kind by kind -/
 theorem fragment_ranks_are_the_sources (f : Frag) :
